@@ -1,42 +1,45 @@
 #!/usr/bin/env python3
-"""seed_eval.py <seed-name> <worktree> <property> [more checks...]
+"""seed_eval.py <seed-name> <worktree> <property>[:tier] [more checks...]
+
 Copies <worktree>/seeded/{patch.diff,demo.py,meta.json} to /verif/seeded/<seed-name>/, confirms the demonstration
-(fails with the change, passes without), applies the patch to /repo, runs the quick checks of the given properties,
-reverts /repo and records what was observed in meta.json."""
-import json, os, shutil, subprocess, sys
+(passes on a copy of the unchanged library, fails on a copy with the change), runs the given checks against the changed
+copy (VERIF_REPO) and records what was observed in meta.json.  /repo itself is never modified (see seedlib.py).
+"""
+import json
+import os
+import shutil
+import sys
+
+sys.path.insert(0, os.path.dirname(os.path.abspath(__file__)))
+import seedlib  # noqa: E402
+
 name, wt, props = sys.argv[1], sys.argv[2], sys.argv[3:]
-dst = os.path.join("/verif/seeded", name)
+dst = os.path.join(seedlib.ROOT, "seeded", name)
 os.makedirs(dst, exist_ok=True)
 for f in ("patch.diff", "demo.py", "meta.json"):
-    shutil.copy(os.path.join(wt, "seeded", f), os.path.join(dst, f))
+    s = os.path.join(wt, "seeded", f)
+    if os.path.abspath(s) != os.path.abspath(os.path.join(dst, f)):
+        shutil.copy(s, os.path.join(dst, f))
 meta = json.load(open(os.path.join(dst, "meta.json")))
-def run(cmd, cwd=None, env=None, timeout=3600):
-    p = subprocess.run(cmd, shell=True, cwd=cwd, env=env, capture_output=True, text=True, timeout=timeout)
-    return p.returncode, (p.stdout + p.stderr)
-assert run("git -C /repo status --porcelain")[1].strip() == "", "/repo not clean"
-env = dict(os.environ, PYTHONPATH="/repo")
-rc0, out0 = run("/venv/bin/python -W ignore %s/demo.py" % dst, cwd="/repo", env=env)
-rc, out = run("git -C /repo apply %s/patch.diff" % dst)
-assert rc == 0, out
-conf = {"demo_unchanged_exit": rc0}
-try:
-    rc1, out1 = run("/venv/bin/python -W ignore %s/demo.py" % dst, cwd="/repo", env=env)
+conf = {}
+with seedlib.scratch_repo() as clean:
+    rc0, out0 = seedlib.run_demo(os.path.join(dst, "demo.py"), clean)
+    conf["demo_unchanged_exit"] = rc0
+    conf["demo_unchanged_tail"] = out0.strip().splitlines()[-2:]
+with seedlib.scratch_repo(os.path.join(dst, "patch.diff")) as changed:
+    rc1, out1 = seedlib.run_demo(os.path.join(dst, "demo.py"), changed)
     conf["demo_changed_exit"] = rc1
     conf["demo_changed_tail"] = out1.strip().splitlines()[-3:]
+    print("demo: unchanged exit", rc0, "changed exit", rc1, flush=True)
     conf["checks"] = {}
     for p in props:
         tier = "quick"
         if ":" in p:
             p, tier = p.split(":")
-        rcc, outc = run("./check %s --tier %s" % (p, tier), cwd="/verif")
-        viol = [l for l in outc.splitlines() if l.startswith("VIOLATION")]
-        sigs = [l.strip() for l in outc.splitlines() if l.strip().startswith("locus=")]
-        conf["checks"]["%s:%s" % (p, tier)] = {"exit": rcc, "violations": len(viol), "signatures": sigs[:6]}
-        print(p, tier, "exit", rcc, "violations", len(viol), sigs[:3])
-finally:
-    run("git -C /repo checkout -- .")
-assert run("git -C /repo status --porcelain")[1].strip() == ""
+        res = seedlib.run_check(p, changed, tier)
+        conf["checks"]["%s:%s" % (p, tier)] = res
+        print(p, tier, "exit", res["exit"], "violations", res["violations"], res["signatures"][:4], res["inconclusive"], flush=True)
 meta["confirmed_by_main_session"] = conf
-meta["detected"] = any(v["exit"] == 1 for v in conf.get("checks", {}).values())
+meta["detected"] = any(v["exit"] == 1 and v["violations"] for v in conf.get("checks", {}).values())
 json.dump(meta, open(os.path.join(dst, "meta.json"), "w"), indent=1)
 print("demo unchanged exit", rc0, "changed exit", conf.get("demo_changed_exit"), "detected", meta["detected"])
